@@ -650,3 +650,26 @@ Definition c17x_class (e : ecase17) : option N :=
 Definition engine_mismatches17 (cs : list ecase17) : list N :=
   bad_indices (fun e => engine_corr_ok (e17_full e) && engine_corr_ok (e17_filtered e)) cs.
 Definition engine_violations_c17x (cs : list ecase17) : list (N * N) := classify c17x_class 0 cs.
+
+(* ---- C06, reserved flags, metamorphic form: the driver serves every history twice - with the
+        application as generated, and with every request of its functions (and of the entry function)
+        for a flag at or below nonwriteable_flag_threshold removed from FlagSet and FlagReset.  External
+        code cannot touch those flags, so the two runs must be indistinguishable: same responses,
+        same stored sessions, same calls.  (The pair reuses the record of the C17 twin cases.) *)
+Definition osnap_opt_eqb (a b : option osnap) : bool :=
+  match a, b with Some x, Some y => osnap_eqb x y | None, None => true | _, _ => false end.
+Fixpoint twin_same (x y : list (bytes * eobs)) : bool :=
+  match x, y with
+  | [], [] => true
+  | (i, o) :: x', (j, p) :: y' =>
+    bytes_eqb i j && resp_same o p && osnap_opt_eqb (eo_snap o) (eo_snap p) && twin_same x' y'
+  | _, _ => false
+  end.
+Definition c06x_class (e : ecase17) : option N :=
+  match c06_class (e17_full e) with
+  | Some k => Some k
+  | None =>
+    if twin_same (ec_long (e17_full e)) (ec_long (e17_filtered e))
+       && twin_same (ec_pers (e17_full e)) (ec_pers (e17_filtered e)) then None else Some 0
+  end.
+Definition engine_violations_c06x (cs : list ecase17) : list (N * N) := classify c06x_class 0 cs.
